@@ -228,9 +228,33 @@ const genKey = "\x00gen"
 // heapGet: current version of a heap array. Arrays not touched since the last
 // "modifies all" havoc resolve to a fresh array of that havoc generation (not to the
 // entry array).
+// immutableKey: heap arrays no code changes: interface boxes, constant ghosts, package-level
+// error values of other packages (io.EOF, io.ErrShortWrite, ...: assumed never reassigned).
+func (st *State) immutableKey(key string) bool {
+	if strings.HasPrefix(key, "B|") {
+		return true
+	}
+	if strings.HasPrefix(key, "ghost|") {
+		if gd := st.x.cs.Ghosts[strings.TrimPrefix(key, "ghost|")]; gd != nil && ghostIsConst(gd) {
+			return true
+		}
+	}
+	if strings.HasPrefix(key, "G|") {
+		name := strings.TrimPrefix(key, "G|")
+		if i := strings.Index(name, "|"); i >= 0 {
+			name = name[:i]
+		}
+		return st.x.sentinel[name]
+	}
+	return false
+}
+
 func (st *State) heapGet(key string, sort Sort) Tm {
 	if t, ok := st.heap[key]; ok {
 		return t
+	}
+	if st.immutableKey(key) {
+		return st.heapInit(key, sort)
 	}
 	if g, ok := st.heap[genKey]; ok {
 		t := st.genArray(g.S, key, sort)
@@ -269,13 +293,8 @@ func (st *State) havocAll() {
 	havocGen++
 	keep := map[string]Tm{}
 	for k, v := range st.heap {
-		if strings.HasPrefix(k, "B|") {
+		if st.immutableKey(k) {
 			keep[k] = v
-		}
-		if strings.HasPrefix(k, "ghost|") {
-			if gd := st.x.cs.Ghosts[strings.TrimPrefix(k, "ghost|")]; gd != nil && ghostIsConst(gd) {
-				keep[k] = v
-			}
 		}
 	}
 	st.heap = keep
@@ -299,16 +318,8 @@ func (st *State) viewGet(view map[string]Tm, key string, sort Sort) Tm {
 	if t, ok := view[key]; ok {
 		return t
 	}
-	if g, ok := view[genKey]; ok && !strings.HasPrefix(key, "B|") {
-		constGhost := false
-		if strings.HasPrefix(key, "ghost|") {
-			if gd := st.x.cs.Ghosts[strings.TrimPrefix(key, "ghost|")]; gd != nil && ghostIsConst(gd) {
-				constGhost = true
-			}
-		}
-		if !constGhost {
-			return st.genArray(g.S, key, sort)
-		}
+	if g, ok := view[genKey]; ok && !st.immutableKey(key) {
+		return st.genArray(g.S, key, sort)
 	}
 	if _, ok := st.sorts[key]; !ok {
 		st.sorts[key] = sort
